@@ -629,4 +629,7 @@ def build(tier, repo):
                      "written merges their rows / cannot be read back; no collision test precedes open()",
                      "raise ValueError when len(set(labels)) < len(labels)", "absent")
     r8.require(1)
+    from .. import modeling_rules as mr5
+    r9 = chk.rule("C14-R9", "the reader never removes elements from a list it is iterating over", "fromfile builds exactly the constraints the format defines")
+    chk.note_analysed("loops_with_list_mutation", mr5.iterate_and_mutate_rule(r9, w))
     return chk
